@@ -98,6 +98,12 @@ def run(prop: str, tier: str, seed: int) -> int:
         from harness.checks import c12
         c12.histories(rep, wd, [(s, True, False) for s in ("config", "field", "codec")], 3 if tier == "quick" else 5, faults=True,
                       clause="C05", label_extra=" fault alphabet")
+    if prop in ("C05", "C07", "C08", "C09"):
+        # seeded random CONFIGURED families (options x flags x dialects x alias sources x defaults x nested opt-in), several calls per
+        # class, every call judged by TLC under its own context
+        from harness.checks import conf_props
+        conf_props.run_into(rep, prop, tier, seed)
+        exhaustive = False
     if prop == "C08":
         # keyword arguments on lazily compiled classes: the FIRST call must already honour them (sys/Mashumaro.tla histories)
         from harness.checks import sys_props
